@@ -2168,6 +2168,8 @@ Lemma client_multiget_doc_reads us path mg hs :
 Proof.
   intros Hhs. unfold client_multiget_doc, multi_get_address_book, marshal_multiget. rewrite Hhs.
   cbn [wm_hrefs wm_prop wm_allprop wm_propname opt_kid flag_kid]. rewrite !app_nil_r.
+  assert (Hne : nonempty hs = true) by (destruct (mg_paths mg); subst hs; reflexivity).
+  clear Hhs.
   pose proof (sel_var (mg_data mg)) as SV.
   remember (write_sel (client_sel (mg_data mg))) as ws eqn:Ews.
   inversion SV as [|x y l l' Vx Fl]; subst. inversion Fl; subst.
@@ -2182,7 +2184,7 @@ Proof.
     - constructor; [exact Vx|constructor]. }
   rewrite (rfc_read_var _ _ V).
   apply rfc_read_hrefs_first; [reflexivity|congruence|].
-  destruct (mg_paths mg); subst hs; reflexivity.
+  destruct hs; [discriminate|reflexivity].
 Qed.
 
 (** C09_client_conformant, multiget half *)
@@ -2190,7 +2192,7 @@ Theorem client_multiget_conformant us path mg m :
   den_multiget us mg = Some m -> rfc_read (client_multiget_doc us path mg) = Some (RMultiget m).
 Proof.
   unfold den_multiget. intros H. destruct (mg_paths mg) as [|p l] eqn:E; [discriminate|].
-  inversion H; subst m. apply client_multiget_doc_reads. rewrite E. reflexivity.
+  inversion H; subst m. apply (client_multiget_doc_reads us path mg (p :: l)). rewrite E. reflexivity.
 Qed.
 
 (** an empty Paths list is sent as a multiget of the collection path itself *)
